@@ -72,7 +72,7 @@ func ProjFragment() *Fragment {
 		Funcs:  Tks("type", "not_null", "to_array"),
 		Leaves: Tks("@", "`1`", "`0`"),
 		Nums:   Tks("0", "-1"),
-		Slices: [][]model.Tok{Tks(":"), Tks("1", ":"), Tks(":", ":", "-1"), Tks(":", "1")},
+		Slices: [][]model.Tok{Tks(":"), Tks("1", ":"), Tks(":", ":", "-1"), Tks(":", "1"), Tks(":", ":", "-2"), Tks(":", ":", "2")},
 		Cmps:   Tks("==", ">"),
 		Star:   true, WildIdx: true, Flatten: true, Filter: true, Dot: true, Pipe: true, Or: true, And: true,
 		Not: true, Paren: true, MaxList: 2, MaxHash: 1, MaxArgs: 2, MinArgs: 1,
@@ -110,6 +110,7 @@ func LogicFragment() *Fragment {
 		Idents: Tks("a", "b", "c"),
 		Cmps:   Tks("==", "!=", "<", "<=", ">", ">="),
 		Or:     true, And: true, Not: true, Paren: true,
+		Weight: StructuralWeight,
 	}
 }
 
